@@ -103,6 +103,19 @@ pub fn check_header(spec: &MsgHeaderSpec) -> Check {
         ensure!(hp == h, "layout:depends-on-reader-position", "header decoded from a reader positioned {} bytes into its source differs from the slice decode", lead);
     }
 
+    {
+        // sibling entry point: the header a decoded *message* carries is this same header, field for field
+        let mut frame = bytes.to_vec();
+        frame.resize(2432, 0);
+        let got = no_panic("decode_messages", || nexrad_decode::messages::decode_messages(&mut std::io::Cursor::new(&frame[..])))?;
+        if let Ok(msgs) = got {
+            if let Some(m) = msgs.first() {
+                check_layout(spec, m.header()).map_err(|f| Fail::new(format!("message-header:{}", f.sig), format!("header carried by the message decode_messages returns: {}", f.detail)))?;
+                ensure!(*m.header() == h, "message-header:differs-from-header-decode", "the header carried by the decoded message differs from decode_message_header's: {:?} vs {:?}", m.header(), h);
+            }
+        }
+    }
+
     // type mapping
     let t = no_panic("message_type", || h.message_type())?;
     ensure_eq!(t, expected_type(spec.mtype), "type-map", "code {}", spec.mtype);
